@@ -518,11 +518,12 @@ Warning: rounding to n-th business day not supported for input value");
 				 * next/prev date is requested */
 				;
 			} else if (forw) {
-				/* years don't wrap around */
-				d.ywd.y++;
+				/* years don't wrap around,
+				 * dt_dadd() keeps the year's hang intact */
+				d = dt_dadd(d, dt_make_ddur(DT_DURYR, 1));
 			} else {
 				/* years don't wrap around */
-				d.ywd.y--;
+				d = dt_dadd(d, dt_make_ddur(DT_DURYR, -1));
 			}
 			/* final assignment */
 			d.ywd.c = tgt;
